@@ -10,8 +10,9 @@
 //	viewbox  viewBox × viewport × preserveAspectRatio: the Transform handed to the backend vs
 //	           resolveTransforms [corr] and SVG's equivalent transform [judge]
 //	use      <use>/<g>/<defs> graphs incl. missing and cyclic: drawn leaves or error vs WR.C18.process [corr]
-//	refs     cyclic / missing marker, clip-path, mask, pattern, gradient references in a child process
-//	           (a stack overflow is fatal in Go): must terminate [crash]
+//	refs     cyclic / missing marker, clip-path, mask, pattern, gradient references in a child process: must
+//	           terminate and draw the shape once [judge/crash]; clip-path and mask graphs vs WR.C18.drawGuarded [corr]
+//	corpus   corpus/C18/*.json: minimal inputs of repaired defects, literal expected drawing
 package c18
 
 import (
@@ -116,12 +117,12 @@ func Run(tier string, seed uint64, modelPath, repo string, out *res.Result) erro
 		nPath, nArc, nShape, nVB, nUse, nRef, nMal = 700000, 300000, 150000, 120000, 60000, 400, 80000
 	}
 	out.Rule = "paths: random command lists of the SVG path grammar (moveto first, 1-9 commands, 1-4 argument groups each, dyadic coordinates k/4..k/16) " +
-		"printed with random number syntaxes (.5, 2.5e2, 25e-1, trailing dot, +, rare E / e+) and separators (space, comma, newline, tab, none where the grammar allows); " +
+		"printed with random number syntaxes (.5, 2.5e2, 25e-1, 2.5E2, 2.5e+2, trailing dot, +) and separators (space, comma, newline, tab, none where the grammar allows); " +
 		"compared exactly (tolerance 2^-20 relative only on cubics elevated from quadratics: the code multiplies by float32(2/3)); arcs: last cubic ends exactly at the requested point, " +
-		"samples of every cubic satisfy the ellipse equation within 1e-3 and sweep the angle the flags select; " +
+		"samples of every cubic satisfy the ellipse equation within 1e-4 (5e-4 for the one-cubic-per-quarter curves of rect/circle/ellipse) and sweep the angle the flags select; " +
 		"shapes: all six basic shapes with all geometry attributes (unitless/px/%), tolerance 2^-20 on the Bezier-constant products; " +
-		"viewbox: viewport x viewBox x 9 alignments x meet/slice/none on the root and on a nested svg, tolerance 2^-20*max(1,|v|,W,H); " +
-		"use: random g/defs/use graphs with missing and cyclic references; refs: cyclic and missing marker/clip-path/mask/pattern/gradient references in a child process; " +
+		"viewbox: viewport x viewBox x 9 alignments x meet/slice/none on the root and on a nested svg, 1 in 10 with a malformed preserveAspectRatio (no crash, model-equal), tolerance 2^-20*max(1,|v|,W,H); " +
+		"use: random g/defs/use graphs with missing and cyclic references; refs: cyclic and missing marker/clip-path/mask/pattern/gradient references in a child process (clip-path and mask graphs also compared with the guard model); corpus: minimal inputs of the repaired defects first; " +
 		"malformed: byte mutations of valid paths (no crash; parse error or model-equal output). " +
 		"non-trivial = path has >= 3 commands or a multi-group command / shape draws something / viewBox differs from the viewport / graph contains a use; distinct by full input text"
 	fonts, err := render.NewFonts(repo)
